@@ -563,3 +563,6 @@ _op.ref0 = _ref0_floordiv
 # counterpart for the zeroth coefficient: used for C11 (directions) and C14 (operands unchanged) only
 _op.only = ('C11', 'C14')
 reg(_op)
+
+
+import ops_r9  # noqa: E402  (operations added after round 9; registers itself)
